@@ -5,7 +5,7 @@ from enum import Enum
 
 import attrs
 
-from ..utils import entry_points
+from ..utils import dump_json_atomic, entry_points
 from .exceptions import TargetError
 
 logger = logging.getLogger(__name__)
@@ -112,8 +112,7 @@ class TrackingBackend:
             raise TargetError(target.name) from exc
 
     def _save_tracked_jobs(self):
-        with open(self._get_state_path(), "w") as state_file:
-            json.dump(self._tracked_jobs, state_file)
+        dump_json_atomic(self._tracked_jobs, self._get_state_path())
 
     def close(self):
         self.ops.close()
